@@ -126,9 +126,40 @@ def gen_model(ctx, rng, bases=None, opts=None, want_tall=True, max_modes=None, f
         except Exception:
             pass
         model = _reset_n_sensors(model, keep=True)
+    if rng.random() < 0.35:
+        desc["keyword_life"] = rng.randint(0, 8)
+        keyword_life(model, X, desc["keyword_life"])
+        desc["history"].append("calls with solver keywords")
     B = np.array(model.basis_matrix_, dtype=float)       # the basis as fitted …
     Xin[...] = 3                                          # … then the caller re-uses its buffer
     return {"model": model, "desc": desc, "X": X.astype(float), "B": B}
+
+
+def keyword_life(model, X, which):
+    """Reconstruction calls that pass documented solver keywords (SSPOR forwards them to scipy's solve / lstsq).  They are
+    the caller's choice for THAT call only: whatever they do to that call's result, no later plain call – on this model or any
+    other – may inherit them.  `which` selects the keyword sets (recorded for replay)."""
+    nf = X.shape[1]
+    m = model.basis_matrix_.shape[1]
+    sq = [{"transposed": True}, {"assume_a": "sym"}, {"check_finite": False}][which % 3]
+    re = [{"cond": 0.5}, {"lapack_driver": "gelsy", "cond": 0.25}, {"check_finite": False}][(which // 3) % 3]
+    keep = model.n_sensors
+    for ns, kw in ((min(nf, m), sq), (min(nf, m + 1), re), (max(1, m - 1), re)):
+        try:
+            model.set_number_of_sensors(ns)
+            sel = model.get_selected_sensors()
+            model.predict(X[:, sel].astype(float), **kw)
+            model.score(X.astype(float), solve_kws=dict(kw))
+        except Exception:
+            pass
+    try:
+        model.reconstruction_error(X.astype(float), **re)
+    except Exception:
+        pass
+    try:
+        model.set_number_of_sensors(keep)
+    except Exception:
+        pass
 
 
 def _reset_n_sensors(model, keep=False):
@@ -186,6 +217,8 @@ def rebuild(desc):
                 pass
         model.update_n_basis_modes(desc["update_modes"])
         model = _reset_n_sensors(model, keep=True)
+    if desc.get("keyword_life") is not None:
+        keyword_life(model, X, desc["keyword_life"])
     B = np.array(model.basis_matrix_, dtype=float)
     Xin[...] = 3
     return {"model": model, "desc": desc, "X": X.astype(float), "B": B}
